@@ -191,6 +191,26 @@ func c08Construct(r *fw.Rec, s dmref.Symbol) {
 		return
 	}
 	r.Tally("ecc_vectors_equal")
+	// codeword vectors that are consecutive pieces of one longer stream (slices with spare capacity
+	// behind them): each piece is encoded as it was when the stream was filled
+	if rng.Intn(2) == 0 {
+		stream := randCodewords(rng, 3*s.DataCW+rng.Intn(8))
+		orig := append([]byte{}, stream...)
+		for k := 0; k < 3; k++ {
+			piece := stream[k*s.DataCW : (k+1)*s.DataCW]
+			got, err := dmenc.ErrorCorrection_EncodeECC200(piece, si)
+			want := dmref.ECC(s, orig[k*s.DataCW:(k+1)*s.DataCW])
+			if err != nil || string(got) != string(want) {
+				r.Violation("model-mismatch", "dm.ecc:piece-of-a-longer-stream", fmt.Sprintf("ErrorCorrection_EncodeECC200 for %s on piece %d of a stream of 3 vectors (a slice with spare capacity behind it): result differs from the standard's for the codewords the piece held (%v)", name, k, err), info)
+				return
+			}
+		}
+		if string(stream) != string(orig) {
+			r.Violation("model-mismatch", "dm.ecc:callers-stream-changed", fmt.Sprintf("ErrorCorrection_EncodeECC200 for %s changed the caller's codeword stream outside / inside the vectors it was given", name), info)
+			return
+		}
+		r.Tally("ecc_vectors_as_pieces_of_a_stream")
+	}
 	// a second call (another vector, possibly another size) must not disturb the first result:
 	// the codeword stream is handed to the placement step later, not consumed at once
 	{
@@ -468,6 +488,7 @@ func c08(c *fw.Ctx) {
 	c.Floor("decoder_version_entries_equal", 30)
 	c.Floor("generator_tables_equal", 16)
 	c.Floor("ecc_vectors_equal", int64(30*reps*9/10))
+	c.Floor("ecc_vectors_as_pieces_of_a_stream", int64(30*reps/4))
 	c.Floor("placements_equal", int64(30*reps*9/10))
 	c.Floor("decoder_reference_symbols_clean", int64(30*reps*8/10))
 	c.Floor("decoder_reference_symbols_damaged", int64(30*reps*8/10))
